@@ -74,6 +74,30 @@ def oracle(heap, objs, root, cfg, text, ws, other):
     return None
 
 
+def aborted_history(heap, root, cfg, victim):
+    """print the graph with the printer of user node [victim] interrupted by a BaseException (the
+    call is aborted, nothing is returned), then print the same objects - interruption removed -
+    and another value: both as a first call"""
+    objs = G.build(heap)
+    objs[victim].fault = 'abort'
+    first, _ = G.run_impl(objs[root], cfg)
+    objs[victim].fault = 'none'
+    again, aw = G.run_impl(objs[root], cfg)
+    fresh, _ = G.run_impl(G.unfold(objs[root], []), cfg)
+    if again != fresh or aw:
+        return first, 'after an interrupted print the same value prints differently from a first call:\n%s\n--- expected ---\n%s' % (
+            again[:400], fresh[:400])
+    for r in range(len(heap)):
+        if heap[r][0] == 'leaf':
+            continue
+        t, w = G.run_impl(objs[r], cfg)
+        f, _ = G.run_impl(G.unfold(objs[r], []), cfg)
+        if t != f or w:
+            return first, 'after an interrupted print another value of the graph prints differently from a first call:\n%s\n--- expected ---\n%s' % (
+                t[:400], f[:400])
+    return first, None
+
+
 def main(tier):
     run = Run(PROP, tier)
     built = run.build()
@@ -104,6 +128,21 @@ def main(tier):
             msg = oracle(heap, objs, root, cfg, text, ws, other)
             if msg and len(run.violations) < 3:
                 run.violation({'kind': 'oracle', 'detail': msg, 'heap': heap, 'root': root, 'cfg': cfg})
+        # interrupted prints leave no residue either
+        nab = nreached = 0
+        for heap, root, cfg in cases[::(3 if tier == 'quick' else 2)]:
+            users = [i for i, n in enumerate(heap) if n[0] == 'user']
+            if not users:
+                continue
+            victim = users[(root + len(heap)) % len(users)]
+            first, msg = aborted_history(heap, root, cfg, victim)
+            nab += 1
+            nreached += first == 'ABORTED'
+            run.count(1)
+            if msg and len(run.violations) < 3:
+                run.violation({'kind': 'aborted', 'detail': msg, 'heap': heap, 'root': root, 'cfg': cfg, 'victim': victim})
+        run.coverage['interrupted_print_histories'] = nab
+        run.coverage['interrupted_print_histories_aborted'] = nreached
         # the interleaved prints must not have disturbed the reference value
         if G.run_impl(other, {})[0] != other_ref:
             run.violation({'kind': 'oracle', 'detail': 'a fixed value prints differently after the run (residue)'})
@@ -118,7 +157,9 @@ def main(tier):
             'pformat of the real cyclic objects vs the model (stateful traversal -> tree -> pformat_model), visited '
             'set empty afterwards. Oracle: the text equals pformat of an acyclic copy built by a reference DFS in which '
             'exactly the back-references (objects among the ancestors) are marker objects; printing another value and '
-            'the same value again gives the same text. non-trivial = cases whose root reaches a cycle')
+            'the same value again gives the same text; histories in which a print is interrupted inside a user printer by '
+            'a BaseException (nothing returned), after which the same objects and every other object of the graph print '
+            'as in a first call. non-trivial = cases whose root reaches a cycle')
         for k in (0, len(cases) // 2, len(cases) - 1):
             run.sample({'heap': cases[k][0], 'root': cases[k][1], 'cfg': cases[k][2], 'impl': impl[k][0][:300]})
     return run.finish()
@@ -132,6 +173,10 @@ def replay(path):
         return 1
     heap = [tuple(tuple(x) if isinstance(x, list) and n[0] == 'leaf' else x for x in n) for n in p['heap']]
     heap = [fix_node(n) for n in p['heap']]
+    if p.get('kind') == 'aborted':
+        first, msg = aborted_history(heap, p['root'], p['cfg'], p['victim'])
+        print(first, '\noracle:', msg)
+        return 1 if msg else 0
     objs = G.build(heap)
     text, ws = G.run_impl(objs[p['root']], p['cfg'])
     other = G.build([('list', [])])[0]
